@@ -1,6 +1,7 @@
 package main
 
 import (
+	"github.com/mr-tron/base58"
 	"bytes"
 	"fmt"
 	"math/big"
@@ -134,9 +135,16 @@ func (e *chainEnv) expW(l link) W {
 	return optW(l.expOff)
 }
 
+// the text a principal was parsed from, where that is what the model must see (an implementation that normalises an
+// identifier while parsing would otherwise describe its own mistake to the model)
+var didTextOverride = map[int]string{}
+
 func didW(dids []did.DID, i int) W {
 	if i < 0 {
 		return WStr("")
+	}
+	if t, ok := didTextOverride[i]; ok {
+		return WStr(t)
 	}
 	return WStr(dids[i].String())
 }
@@ -404,6 +412,24 @@ func genChain(c *Ctx) {
 				dids = append(dids, d2)
 				break
 			}
+		}
+	}
+	// principals 8, 9, 10: the identifier of principals 0, 1, 2 with one more byte after the key (another identifier: its
+	// text differs), present only if all three look-alikes above were found so that the indexes line up
+	if len(dids) == 8 {
+		for i := 0; i < 3; i++ {
+			txt := dids[i].String()
+			raw, err := base58.Decode(txt[9:])
+			if err != nil {
+				break
+			}
+			ext := "did:key:z" + base58.Encode(append(append([]byte{}, raw...), 0x01))
+			d2, err := did.Parse(ext)
+			if err != nil {
+				break
+			}
+			didTextOverride[len(dids)] = ext
+			dids = append(dids, d2)
 		}
 	}
 	e := &chainEnv{c: c, keys: keys, dids: dids, t0: time.Now(), memo: map[string]*delegation.Token{}}
@@ -785,27 +811,32 @@ func genChain(c *Ctx) {
 			ls[pos].undefCid = true
 			e.run("chain/undef-cid", chainCase{invIss: 0, invSub: L, invAud: -1, cmd: "/a", args: stdArgs, links: ls})
 			if len(e.dids) >= 8 && L <= 2 {
-				// look-alikes: only principals 0..2 have one (index + 5)
-				for _, role := range []string{"aud", "iss", "sub"} {
-					ls = mk()
-					switch role {
-					case "aud":
-						if ls[pos].aud <= 2 {
-							ls[pos].aud += 5
-						}
-					case "iss":
-						if ls[pos].iss <= 2 {
-							ls[pos].iss += 5
-						}
-					case "sub":
-						if ls[pos].sub <= 2 {
-							ls[pos].sub += 5
-						}
+				// look-alikes: only principals 0..2 have them (index + 5: letter case; index + 8: a byte more)
+				for _, off := range []int{5, 8} {
+					if off+2 >= len(e.dids) {
+						continue
 					}
-					e.run("chain/lookalike-"+role, chainCase{invIss: 0, invSub: L, invAud: -1, cmd: "/a", args: stdArgs, links: ls})
+					for _, role := range []string{"aud", "iss", "sub"} {
+						ls = mk()
+						switch role {
+						case "aud":
+							if ls[pos].aud <= 2 {
+								ls[pos].aud += off
+							}
+						case "iss":
+							if ls[pos].iss <= 2 {
+								ls[pos].iss += off
+							}
+						case "sub":
+							if ls[pos].sub <= 2 {
+								ls[pos].sub += off
+							}
+						}
+						e.run("chain/lookalike-"+role, chainCase{invIss: 0, invSub: L, invAud: -1, cmd: "/a", args: stdArgs, links: ls})
+					}
+					ls = mk()
+					e.run("chain/lookalike-invoker", chainCase{invIss: off, invSub: L, invAud: -1, cmd: "/a", args: stdArgs, links: ls})
 				}
-				ls = mk()
-				e.run("chain/lookalike-invoker", chainCase{invIss: 5, invSub: L, invAud: -1, cmd: "/a", args: stdArgs, links: ls})
 			}
 			// the same digest under another codec: a CID the loader does not know, after the real one and instead of it
 			ls = mk()
